@@ -695,6 +695,8 @@ func c15(c *core.Check) {
 	r3.Cond(nBad == 0, "module scan for nondeterminism sources", "-", "none found", fmt.Sprintf("%d found", nBad))
 
 	c15Snapshots(c, eng)
+	c15ParsedSVG(c, eng)
+	c15DrawState(c)
 
 	// ---- R4 direct stores to globals outside init
 	r4 := c.Rule("R4", "no direct assignment to a package-level variable of the module outside package initialisation (logger configuration excepted)", 1)
@@ -1024,3 +1026,138 @@ func notFresh(v ssa.Value, depth int) (string, *ssa.Parameter) {
 
 // StoresToAlloc lists the values stored into a local cell.
 func StoresToAlloc(al *ssa.Alloc) []ssa.Value { return core.StoresTo(al) }
+
+// c15ParsedSVG: drawing a parsed SVG image does not change it.
+func c15ParsedSVG(c *core.Check, eng *core.EffectsEngine) {
+	p := c.Prog
+	r := c.Rule("R6", "a parsed SVG image is drawn without being changed (the image cache hands the same object to every place of a document that uses the url, and to later renders): no drawing function of package svg writes through a definition looked up in the image's tables of markers, clip paths, masks, paint servers or nodes", 2)
+	n := 0
+	for _, fn := range p.FuncsOfPkg("svg") {
+		fn := fn
+		hasSeed := false
+		isSeed := func(v ssa.Value) bool {
+			var lk *ssa.Lookup
+			switch x := v.(type) {
+			case *ssa.Lookup:
+				lk = x
+			case *ssa.Extract:
+				lk, _ = x.Tuple.(*ssa.Lookup)
+				if x.Index != 0 {
+					return false
+				}
+			}
+			if lk == nil {
+				return false
+			}
+			if !core.DerivesFrom(lk.X, func(w ssa.Value) bool { return core.IsFieldNamed(w, "definitions") }) {
+				return false
+			}
+			// pointers into the tables only (values are copies)
+			switch lk.Type().Underlying().(type) {
+			case *types.Pointer, *types.Tuple:
+				return true
+			}
+			return false
+		}
+		core.Instrs(fn, func(in ssa.Instruction) {
+			if v, ok := in.(ssa.Value); ok && isSeed(v) {
+				hasSeed = true
+			}
+		})
+		if !hasSeed {
+			continue
+		}
+		n++
+		ws := eng.WritesFrom(fn, isSeed)
+		if len(ws) == 0 {
+			r.OK(core.FuncName(fn)+" | definitions looked up are only read", p.Pos(fn.Pos()), "no store reaches memory derived from a looked-up definition")
+		}
+		for _, w := range ws {
+			r.Fail(core.FuncName(fn)+" | "+p.StmtTextAt(fn, w.Instr.Pos()), p.Pos(w.Instr.Pos()), fmt.Sprintf("%s %s: the parsed image is modified while it is drawn, so a second drawing of the same image differs from the first", w.What, w.Via))
+		}
+	}
+	if n == 0 {
+		r.Anchor("package svg: lookups in the image's definitions")
+	}
+}
+
+// c15DrawState: what one drawing of an SVG image leaves behind does not reach the next drawing.
+func c15DrawState(c *core.Check) {
+	p := c.Prog
+	r := c.Rule("R7", "per-drawing state of an SVG image: every field of SVGImage that the drawing code assigns (the text cursor, the text context) is assigned by Draw itself before the first node is drawn, so that a second drawing of the same image starts from the same state (the set of definitions being drawn is emptied by the enter/leave pairs and is excepted)", 2)
+	draw := p.Method("svg", "SVGImage", "Draw")
+	if draw == nil {
+		r.Anchor("svg.(*SVGImage).Draw")
+		return
+	}
+	isImage := func(v ssa.Value) bool {
+		pt, ok := v.Type().Underlying().(*types.Pointer)
+		if !ok {
+			return false
+		}
+		n, ok := pt.Elem().(*types.Named)
+		return ok && n.Obj().Name() == "SVGImage"
+	}
+	topField := func(addr ssa.Value) string {
+		for i := 0; i < 4; i++ {
+			fa, ok := addr.(*ssa.FieldAddr)
+			if !ok {
+				return ""
+			}
+			if isImage(fa.X) {
+				// an image received as a parameter or captured, not one being built
+				switch fa.X.(type) {
+				case *ssa.Parameter, *ssa.FreeVar:
+					return core.FieldName(fa)
+				}
+				return ""
+			}
+			addr = fa.X
+		}
+		return ""
+	}
+	written := map[string]string{}
+	for _, fn := range p.FuncsOfPkg("svg") {
+		root := fn
+		for root.Parent() != nil {
+			root = root.Parent()
+		}
+		if root == draw || root.Name() == "Parse" || root.Name() == "enter" || root.Name() == "leave" {
+			continue
+		}
+		fn := fn
+		core.Instrs(fn, func(in ssa.Instruction) {
+			if st, ok := in.(*ssa.Store); ok {
+				if f := topField(st.Addr); f != "" {
+					written[f] = core.FuncName(fn) + " at " + p.Pos(st.Pos())
+				}
+			}
+		})
+	}
+	// fields assigned by Draw before the first drawNode
+	var first ssa.Instruction
+	core.Instrs(draw, func(in ssa.Instruction) {
+		if call, ok := in.(*ssa.Call); ok && first == nil && call.Call.StaticCallee() != nil && call.Call.StaticCallee().Name() == "drawNode" {
+			first = in
+		}
+	})
+	reset := map[string]bool{}
+	core.Instrs(draw, func(in ssa.Instruction) {
+		if st, ok := in.(*ssa.Store); ok && first != nil && instrDominates(st, first) {
+			if f := topField(st.Addr); f != "" {
+				reset[f] = true
+			}
+		}
+	})
+	var fields []string
+	for f := range written {
+		fields = append(fields, f)
+	}
+	sort.Strings(fields)
+	for _, f := range fields {
+		r.Cond(reset[f], "svg.(*SVGImage).Draw | "+f, p.Pos(draw.Pos()), "assigned by Draw before the first node is drawn", "the field "+f+" is assigned while drawing ("+written[f]+") and Draw does not reset it: the second drawing of an image starts where the first one ended")
+	}
+	if len(fields) == 0 {
+		r.Anchor("package svg: stores into fields of SVGImage while drawing")
+	}
+}
